@@ -187,6 +187,10 @@ func (r *icRun) render() {
 		if r.sc.Fail[f] == "foreign" {
 			ext = []string{".yaml", ".json", ".xsd.unknown"}[rng.Intn(3)]
 		}
+		if r.sc.Fail[f] == "compiled" {
+			// a compiled model (binary, text, JSON) that cannot be decoded
+			ext = []string{".pb", ".textpb", ".pb.json"}[rng.Intn(3)]
+		}
 		p := path.Join(dir, "f_"+f+ext)
 		r.paths[f] = p
 		r.byPath[p] = f
@@ -224,13 +228,22 @@ func (r *icRun) render() {
 		if dir == "." {
 			dir = ""
 		}
-		if kind == "foreign" {
-			b.WriteString("this: is\n  not: [a recognisable, foreign, spec\n")
+		if kind == "foreign" || kind == "compiled" {
+			switch {
+			case strings.HasSuffix(r.paths[f], ".textpb"): // cut short inside a message
+				b.WriteString("apps: {\n key: \"App_" + f + "\"\n value: {\n  name: {\n   part: \"App_" + f + "\"\n  }\n  endpoints: {\n   key: \"Ep\"\n   value: {\n    name: \"E")
+			case strings.HasSuffix(r.paths[f], ".pb.json"):
+				b.WriteString("{\"apps\": {\"App_" + f + "\": {\"name\": {\"part\": [\"App_" + f + "\"]}, \"endpoints\": {\"Ep\": {\"name\": \"E")
+			case strings.HasSuffix(r.paths[f], ".pb"): // one application entry whose declared length runs past the end
+				b.WriteString("\x0a\x40\x0a\x05App_" + f + "\x12\x30\x0a\x07")
+			default:
+				b.WriteString("this: is\n  not: [a recognisable, foreign, spec\n")
+			}
 			r.content[f] = b.String()
 			continue
 		}
 		imps := r.sc.Imports[f]
-		if kind == "read" || kind == "importsyntax" {
+		if kind == "read" || kind == "importsyntax" || kind == "compiled" {
 			imps = nil
 		}
 		for ii, t := range imps {
